@@ -37,15 +37,17 @@ func envOr(k, d string) string {
 
 // A Unit is one `go test` invocation of an injected harness.
 type Unit struct {
-	Name         string
-	Module       string   // "" (root module) or "godev"
-	Pkg          string   // package dir relative to the module root
-	Harness      string   // dir under /verif/harness
-	Run          string   // -run regexp
-	Instrument   []string // package dirs (relative to /repo) to instrument
-	Race         bool
-	Timeout      time.Duration
-	Env          []string
+	Name       string
+	Module     string   // "" (root module) or "godev"
+	Pkg        string   // package dir relative to the module root
+	Harness    string   // dir under /verif/harness
+	Run        string   // -run regexp
+	Instrument []string // package dirs (relative to /repo) to instrument
+	Race       bool
+	Timeout    time.Duration
+	Env        []string
+	// Extra maps package dirs to create (relative to /repo) to source dirs under /verif
+	Extra        map[string]string
 	ThoroughOnly bool
 }
 
@@ -304,6 +306,12 @@ func runUnit(p Prop, u Unit, scratch, out, tier string, seed int64, replay strin
 		files, _ := filepath.Glob(filepath.Join(m.src, "*.go"))
 		for _, f := range files {
 			overlay[filepath.Join(m.dst, filepath.Base(f))] = f
+		}
+	}
+	for dst, src := range u.Extra {
+		files, _ := filepath.Glob(filepath.Join(verifDir, src, "*.go"))
+		for _, f := range files {
+			overlay[filepath.Join(repoDir, dst, filepath.Base(f))] = f
 		}
 	}
 	// 2. harness files in, the package's own tests out
